@@ -109,4 +109,20 @@ PROPS = {
         assumptions=CH_ASSUME,
         rule=CH_RULE,
     ),
+    "C04": dict(
+        lean_props=["MayVerif.Props.C04"],
+        families=[dict(mode="det", name="mq_spmc", quick=480, thorough=12000,
+                       nontrivial=r"BlockPtr\.0@\d+ cas \S+ \S+ \S+ 0 ")],
+        trusted_base=TB_COMMON + [
+            "refinement level B -> level A (blocks, `used`, packed head word, re-used addresses -> logical indices) is checked by executing the level-A steps alongside every replayed trace (Model/Queue/SpmcSim.lean), not proved",
+            "non-atomic slot accesses (`set`/`get`/`copy_to_bulk`) are not hooked: the write is folded into the owner's `tail.index` unsync load, the reads into the taker's `used.fetch_sub` (they are data-race free iff spmc_no_uninit holds)",
+            "address re-use of freed blocks (ABA) is an adversarial choice of the level-B model and whatever the glibc allocator does in the real runs",
+        ],
+        assumptions=[
+            "a taker that over-claimed waits until the owner has pushed past its range; if the owner never pushes again it waits for ever - C04 as worded allows this (spmc_claim_completes is the exit condition); the scenarios keep the owner pushing until every stealer has finished",
+            "`Queue::len` (unsafe, no in-tree caller) is not modelled; the crossbeam_queue_steal feature (external crate) is not checked",
+            "`push`/`Local::pop` are called by one thread per queue (the `Local` handle is not `Clone`)",
+        ],
+        rule="det mode: owner (pre-fill/pre-drain to offsets B-2..B+1 of the 32-slot block, then push/pop/is_empty, then keeps pushing until all stealers are done, then Drop) x 1-4 stealers (raw mode: pop/bulk_pop/is_empty on Arc<Queue>; local mode: steal_into their own Local, pop of their own queue, Drop); seeded random schedules with stickiness over every atomic access; non-trivial = at least one failed compare-exchange on a head word; distinct = SHA-1 of the canonical trace",
+    ),
 }
